@@ -23,6 +23,7 @@ import (
 	"github.com/syndtr/goleveldb/leveldb/opt"
 
 	gcmn "github.com/dappledger/AnnChain/gemmill/modules/go-common"
+	"github.com/dappledger/AnnChain/gemmill/modules/verifhook"
 )
 
 func init() {
@@ -60,6 +61,9 @@ func (db *GoLevelDB) Get(key []byte) []byte {
 }
 
 func (db *GoLevelDB) Set(key []byte, value []byte) {
+	if err := verifhook.BeforeWrite("godb.Set"); err != nil {
+		gcmn.PanicCrisis(err)
+	}
 	err := db.db.Put(key, value, nil)
 	if err != nil {
 		gcmn.PanicCrisis(err)
@@ -67,6 +71,9 @@ func (db *GoLevelDB) Set(key []byte, value []byte) {
 }
 
 func (db *GoLevelDB) SetSync(key []byte, value []byte) {
+	if err := verifhook.BeforeWrite("godb.SetSync"); err != nil {
+		gcmn.PanicCrisis(err)
+	}
 	err := db.db.Put(key, value, &opt.WriteOptions{Sync: true})
 	if err != nil {
 		gcmn.PanicCrisis(err)
@@ -74,6 +81,9 @@ func (db *GoLevelDB) SetSync(key []byte, value []byte) {
 }
 
 func (db *GoLevelDB) Delete(key []byte) {
+	if err := verifhook.BeforeWrite("godb.Delete"); err != nil {
+		gcmn.PanicCrisis(err)
+	}
 	err := db.db.Delete(key, nil)
 	if err != nil {
 		gcmn.PanicCrisis(err)
@@ -81,6 +91,9 @@ func (db *GoLevelDB) Delete(key []byte) {
 }
 
 func (db *GoLevelDB) DeleteSync(key []byte) {
+	if err := verifhook.BeforeWrite("godb.DeleteSync"); err != nil {
+		gcmn.PanicCrisis(err)
+	}
 	err := db.db.Delete(key, &opt.WriteOptions{Sync: true})
 	if err != nil {
 		gcmn.PanicCrisis(err)
@@ -129,6 +142,9 @@ func (mBatch *goLevelDBBatch) Delete(key []byte) {
 }
 
 func (mBatch *goLevelDBBatch) Write() {
+	if err := verifhook.BeforeWrite("godb.BatchWrite"); err != nil {
+		gcmn.PanicCrisis(err)
+	}
 	err := mBatch.db.db.Write(mBatch.batch, nil)
 	if err != nil {
 		gcmn.PanicCrisis(err)
